@@ -675,6 +675,13 @@ class SmallVectorBase : private Alloc {
       // Indeed, capacity cannot shrink, except for shrink_to_fit which resets to small state if possible.
       // Besides, if 'this' is large, let's not shrink to small size and keep our dynamic memory for now.
       // To sum-up, in this context, we do not touch our capacity, only move and relocates o's elements
+      if (!isSmall() && _capa < o._capa) {
+        // Exception: a dynamic buffer stolen from a vector can be smaller than the inline capacity.
+        // Release it and come back to the small state, which is large enough to hold o's elements.
+        destroyFreeStorage();
+        _capa = 0;
+        _size = inplaceCapa;
+      }
       move_n(o._storage.ptr(), o._capa, begin(), size());
       if (o._size == kMaxSize) {
         if (isSmall()) {
